@@ -24,13 +24,14 @@ pub fn cfg() -> Cfg {
         MatcherKind::FuncDebug,
         MatcherKind::FuncDebug,
         MatcherKind::Func,
+        MatcherKind::Macro(0),
     ];
     cfg.max_clauses = 6;
     cfg.max_stub_pats = 3;
     cfg.max_chain = 3;
     cfg.max_n = 3;
     cfg.max_history = 0;
-    cfg.verify_modes = vec![VerifyMode::Drop, VerifyMode::Verify, VerifyMode::Report];
+    cfg.verify_modes = vec![VerifyMode::Drop, VerifyMode::Verify, VerifyMode::Report, VerifyMode::ExplicitVerify];
     cfg
 }
 
@@ -163,6 +164,7 @@ pub fn check(scn: &Scenario) -> Result<CaseInfo, String> {
                 .class_if(scn.verify == VerifyMode::Report, "via-report")
                 .class_if(scn.verify == VerifyMode::Verify, "via-verify")
                 .class_if(scn.verify == VerifyMode::Drop, "via-drop")
+                .class_if(scn.verify == VerifyMode::ExplicitVerify, "via-no_verify_in_drop+verify")
                 .class_if(discarded, "history-has-mock-panic(not C03)"))
         }
     }
@@ -199,7 +201,7 @@ pub fn grid() -> Vec<GridCell> {
                     if entry == "next" && count > eff {
                         continue; // would be an order violation (a mock panic), not C03
                     }
-                    for verify in [VerifyMode::Drop, VerifyMode::Verify, VerifyMode::Report] {
+                    for verify in [VerifyMode::Drop, VerifyMode::Verify, VerifyMode::Report, VerifyMode::ExplicitVerify] {
                         for partial in [false, true] {
                             cells.push(GridCell {
                                 entry,
@@ -312,7 +314,7 @@ pub fn run(ctx: &Ctx) -> Verdict {
     let mut v = Verdict::new("exploration", RULE);
     v.explanation = "Model verdict vs real verdict in both directions, and the set of violated expectations named by the failure text vs the model's set (multiset of pattern / method identities; wording and numbers are not compared).".into();
     v.assumptions = vec![
-        "DynClause hook assembles the clause list".into(),
+        "each clause is wrapped in the DynClause hook (its builder type is only known at run time); the clause list itself is a production tuple of that arity".into(),
         "report() is judged by its ExitCode only (its text goes to stderr)".into(),
         "build variant: std".into(),
     ];
